@@ -7,3 +7,5 @@ pub mod evalmodel;
 pub mod notation;
 pub mod runner;
 pub mod props;
+pub mod fuzzdec;
+pub mod fuzzrun;
